@@ -110,6 +110,12 @@ package shutterservice
 //@ func (*EventTriggerDefinition).UnmarshalBytes
 //@   requires d != nil
 //@   ensures ret0 == nil ==> validDef(d)
+//@ // the encoding is returned in memory allocated by this call (it is not shared with later encodings)
+//@ func (*EventTriggerDefinition).MarshalBytes
+//@   requires d != nil
+//@   ensures fresh(ret0)
+//@   maypanic   // the explicit panic on an rlp.Encode error (writer is a bytes.Buffer, value is RLP-encodable: A-rlp)
+//@   opt frame = off
 //@ // (positions 1..len(IntArgs) hold the integer arguments, the remaining len(ByteArgs) positions the byte strings;
 //@ // the element-wise statement for the byte strings is not proved: boxed slices made the invariant step time out)
 //@ func (*ValuePredicate).EncodeRLP
